@@ -23,7 +23,7 @@ from phyclone.smc.samplers import UnconditionalSMCSampler
 from phyclone.smc.utils import RootPermutationDistribution
 from phyclone.tree import FSCRPDistribution, Tree, TreeJointDistribution
 from phyclone.utils import Timer
-from phyclone.utils.dev import clear_proposal_dist_caches
+from phyclone.utils.dev import clear_proposal_dist_caches, clear_all_caches
 
 
 def run(
@@ -195,6 +195,8 @@ def run_phyclone_chain(
     chain_num,
     subtree_update_prob,
 ):
+    # start every chain from cold caches: a pool worker (or a caller) may have run another chain in this process
+    clear_all_caches()
     tree_dist = TreeJointDistribution(FSCRPDistribution(concentration_value))
     kernel = setup_kernel(outlier_prob, proposal, rng, tree_dist)
     samplers = setup_samplers(kernel, num_particles, outlier_prob, resample_threshold, rng, tree_dist)
